@@ -134,13 +134,17 @@ def run(tier):
             elif mode in ("seq", "wrap"):
                 ops = 3000 if quick else 9000
             elif mode == "fnv":
-                ops = 14000 if quick else 400000
+                ops = 14000 if quick else 60000      # the audit after every operation makes a history quadratic
             else:
                 ops = 6000 if quick else 30000
             cases.append(mk_case("store:%s:%d" % (mode, rep), [("strstore", rng.next() & 0xFFFFFFFF, ops, mode)], {"gc": "never"}))
-    results = common.run_batch("hook", cases, timeout=common.batch_timeout(tier, len(cases)))
+    results = common.run_batch("hook", cases, timeout=common.batch_timeout(tier, len(cases)), case_timeout=300)
     sizes = set()
     for case, res in zip(cases, results):
+        if "abort" in res and res["abort"].get("why") in ("timeout", "not-run"):
+            # the harness's own long history ran into the watchdog: no verdict about the table
+            ck.inconclusive.append("intern-table history %s did not finish within the watchdog period" % case["id"])
+            continue
         if "abort" in res or common.panics_of(res):
             ck.violation("StoreHistoryDied", {"case": case["id"], "what": str(res.get("abort") or common.panics_of(res))[:2000], "step": case["steps"][0]})
             continue
